@@ -230,6 +230,10 @@ pub mod utils;
 /// Events.
 pub mod events;
 
+/// Verification-only hooks (thin wrappers, no logic).
+#[cfg(gmsol_verif)]
+pub mod verif_hooks_g9;
+
 use self::{
     instructions::*,
     ops::{
